@@ -26,11 +26,54 @@ RULE_STREAM = ("each run generates one stream from the tape (payload grammar / h
                "(every byte offset for streams up to the stated size, sampled beyond) plus one read error; a run is non-trivial if at least one cut or fault "
                "was applied; distinct = distinct hashes of (stream bytes, pipe configuration)")
 
+ENGINES["buildsim"] = {
+    "real": ["builder and reader API of the root package (message.go, segment.go, struct.go, list.go, pointer.go, canonical.go), Marshal/Unmarshal, Encoder/Decoder, library arenas SingleSegment/MultiSegment"],
+    "stub": ["allocator (simarena: tape-chosen segment, slack, grow-vs-new, dirty spare capacity, one injected failure)", "byte pipe between Encoder and Decoder (simio)", "capability hooks (instrumented recorders)"],
+}
+
+RULE_BUILD = ("each run is one tape-decided history of 1-3 builder nodes (arena configuration, operation sequence, copies between nodes, injected allocation failure); "
+              "non-trivial = at least one operation executed and one oracle evaluation made; distinct = distinct hashes of the final segment bytes of all nodes")
+
 RULE_SCHED = ("each run is one seeded schedule+workload drawn from the choice tape; a run is non-trivial if it had at least one "
               "preemptive context switch or fired fault; distinct = distinct hashes of the full decision trace (schedule choices, "
               "fired faults, fired events) among non-trivial runs")
 
 CHECKS = {
+    "C04": {
+        "claim": "seeded search over builder histories on simulated allocators (exact-fit, dirty spare capacity, forced new segments, one injected allocation failure) and the library's own arenas: after every few operations the whole tree is read back through the accessors and compared with a value-tree model, and at the end through Marshal/Unmarshal, MarshalPacked/UnmarshalPacked and Encoder->pipe->Decoder (packed or not, tape-chosen chunking, buffer reuse)",
+        "engine": "buildsim", "level": "exploration",
+        "budget": {"quick": 20, "thorough": 480},
+        "rule": RULE_BUILD,
+        "faults": ["alloc_fail", "exact_fit", "dirty_cap", "always_new_segment"],
+    },
+    "C05": {
+        "claim": "same histories as C04; the serialised bytes are parsed by an independent frame parser, validated by an independent implementation of the encoding spec (alignment, every pointer inside its segment, landing pads, list sizes, pairwise disjoint objects) and decoded by an independent decoder whose tree must equal the model exactly (so never-written bytes are zero even when spare capacity was dirty)",
+        "engine": "buildsim", "level": "exploration",
+        "budget": {"quick": 20, "thorough": 480},
+        "rule": RULE_BUILD,
+        "faults": ["alloc_fail", "exact_fit", "dirty_cap", "always_new_segment"],
+    },
+    "C16": {
+        "claim": "seeded search over histories in which builder nodes exchange subtrees (SetPtr across messages, SetRoot, CopyFrom and List.SetStruct with different section sizes, forced copies of list members, copies onto non-empty destinations, copies interrupted by an allocation failure) followed by mutations on both sides; both sides must keep equal to their own models, copied capabilities must occupy their own table entry holding their own reference (hooks shut down exactly once after all messages are reset)",
+        "engine": "buildsim", "level": "exploration",
+        "budget": {"quick": 20, "thorough": 480},
+        "rule": RULE_BUILD,
+        "faults": ["alloc_fail", "exact_fit", "dirty_cap", "always_new_segment"],
+    },
+    "C17": {
+        "claim": "replica invariant: for tape-chosen pairs of live subtrees across nodes (values reached by different allocation and copy histories, padded copies, re-encodings in other segment layouts, single-leaf mutations) capnp.Equal must agree with an independent implementation of the documented rules and be reflexive and symmetric; pairs on which the documented rules are silent are skipped, the all-pairs quantifier is sampled, not enumerated",
+        "engine": "buildsim", "level": "exploration",
+        "budget": {"quick": 20, "thorough": 480},
+        "rule": RULE_BUILD,
+        "faults": ["alloc_fail", "exact_fit", "dirty_cap", "always_new_segment"],
+    },
+    "C18": {
+        "claim": "replica invariant: for capability-free structs reached by the simulated histories, Canonicalize must produce a valid single-segment message that decodes to an equal value, equals an independent canonicaliser byte for byte, is idempotent, and is identical for re-encodings in other layouts and version-padded copies; structs reaching a capability must be rejected",
+        "engine": "buildsim", "level": "exploration",
+        "budget": {"quick": 20, "thorough": 480},
+        "rule": RULE_BUILD,
+        "faults": ["alloc_fail", "exact_fit", "dirty_cap", "always_new_segment"],
+    },
     "C13": {
         "claim": "per generated packed stream, every cut point (EOF at byte k; exhaustive for streams up to 512 bytes) and a read error are injected between packer and unpacker; one-shot Unpack, the streaming Reader (all read sizes, ReadWord, bufio sizes, chunkings, zero-length reads) and an independent implementation of the packing spec must agree on output and acceptability, truncation must surface as an error without invented bytes, and output is bounded by the spec",
         "engine": "streamsim", "level": "fault_enumeration",
@@ -73,6 +116,7 @@ CHECKS = {
 
 
 ENGINE_KIND = {
+    "buildsim": "deterministic simulation of builder nodes on simulated allocators with an executable value-tree model and independent wire-format oracles",
     "streamsim": "deterministic simulation of writer -> faulty byte pipe -> reader for the packed codec and the stream framing, with per-stream cut-point enumeration",
     "capsim": "deterministic simulation of tasks sharing capnp.Client handles, weak refs and client promises",
     "promsim": "deterministic simulation of pipelined calls and resolution on capnp.Promise",
